@@ -44,6 +44,14 @@ def handle (args : List String) : String :=
     | some s, some c0, some r0, some c1, some r1 =>
       textReply (setCoordinate s ((c1 : Int) - c0) ((r1 : Int) - r0))
     | _, _, _, _, _ => "bad-op"
+  -- a member of a shared formula one row below its master (the reader expands it with the same adjuster), then moved
+  | "setcoordsh" :: h :: c0 :: r0 :: c1 :: r1 :: _ =>
+    match decodeStr h, c0.toNat?, r0.toNat?, c1.toNat?, r1.toNat? with
+    | some s, some c0, some r0, some c1, some r1 =>
+      (match setCoordinate s 0 1 with
+       | .ok t => textReply (setCoordinate t ((c1 : Int) - c0) ((r1 : Int) - r0))
+       | .panic => "panic")
+    | _, _, _, _, _ => "bad-op"
   | "adj" :: h :: dc :: dr :: _ =>
     match decodeStr h, dc.toInt?, dr.toInt? with
     | some s, some dc, some dr =>
